@@ -126,7 +126,7 @@ Proof. exact align_to_tiles. Qed.
 (* non-vacuity: a successful cast of three 4-byte elements at 4096 to 2-byte elements yields a
    six-element view at 4096; an align-to split of seven bytes at 4097 into u32 is 3 + 1 + 0 *)
 Example C01_nonvacuous :
-  Root.try_cast_slice (mkEnv (fun _ => false) (fun _ => 0)) (mkTy 4 4) (mkTy 2 2) (mkSlice (mkPtr 4096 12) 3)
+  Root.try_cast_slice (mkEnv (fun _ => false) (fun _ => 0) (fun _ _ => 0)) (mkTy 4 4) (mkTy 2 2) (mkSlice (mkPtr 4096 12) 3)
     = Ret (Ok (mkSlice (mkPtr 4096 12) 6)) /\
   align_to (mkTy 1 1) (mkTy 4 4) 4097 7 = mkSplit 4097 3 4100 1 4104 0.
 Proof. split; vm_compute; reflexivity. Qed.
